@@ -38,7 +38,9 @@ LeafKinds == {"spend", "spend2", "owner", "appr", "send", "store", "query"}
 Leaf(k, id, d) ==
     CASE k \in {"spend", "spend2"} -> {Pc(id, md, m, who, a) : md \in {"catch", "bubble"}, m \in SpendM, who \in {"S", "self", "T"}, a \in Amts}
       [] k = "owner" -> {Pc(id, md, m, who, Amt) : md \in {"catch", "bubble"}, m \in OwnerM, who \in {"S", "self", "T"}}
-      [] k = "appr"  -> {PcG(id, md, m, "C0", a) : md \in {"catch", "bubble"}, m \in ApprM, a \in {"3000000", "1000000", Z}}
+      \* the grantee is the top contract or the calling contract itself (always a tracked account)
+      [] k = "appr"  -> {PcG(id, md, m, ge, a) : md \in {"catch", "bubble"}, m \in ApprM, a \in {"3000000", "1000000", Z},
+                                                  ge \in IF d = "call" THEN {"C0", "self"} ELSE {"self"}}
       [] k = "send"  -> {Send(id, to, v) : to \in {"S", "T", "W"}, v \in {"300", "50"}}
       [] k = "store" -> {Store(id)}
       [] k = "query" -> {Query(id)}
@@ -46,7 +48,9 @@ Leaf(k, id, d) ==
 RInit == /\ sc = None /\ path = <<>> /\ nid = 0 /\ fin = FALSE /\ out = None /\ tree = CallC(0, "catch", Z, <<>>)
 \* (TLC computes the initial states once per run: the top frame is drawn by the first step)
 Top == /\ nid = 0 /\ nid' = 1
-       /\ tree' = R({CallC(0, "catch", v, <<>>) : v \in {Z, "900", "0"}} \cup {Create(0, Z, <<>>), Create(0, "600", <<>>)})
+       /\ \E k \in {R(1..8)} :
+            tree' = IF k = 1 THEN Create(0, Z, <<>>) ELSE IF k = 2 THEN Create(0, "600", <<>>)
+                    ELSE IF k <= 5 THEN CallC(0, "catch", Z, <<>>) ELSE CallC(0, "catch", "900", <<>>)
        /\ UNCHANGED <<sc, path, fin, out>>
 
 \* a frame can be closed only when it has executed something
@@ -57,7 +61,7 @@ Build ==
                    ELSE IF ~CanClose THEN {"leaf"}
                    ELSE IF Len(path) < 2 /\ tree.op = "call" THEN {"leaf", "leaf2", "leaf3", "open", "open2", "close"}
                    ELSE {"leaf", "leaf2", "leaf3", "close"})} :
-       \E o \in {R(Leaf(R(LeafKinds), nid, 0))} : \E o2 \in {R(Leaf(R(LeafKinds), nid + 1, 0))} :
+       \E o \in {R(Leaf(R(LeafKinds), nid, tree.op))} : \E o2 \in {R(Leaf(R(LeafKinds), nid + 1, tree.op))} :
        \E cv \in {R({Z, "0", "400"})} : \E md \in {R({"catch", "catch2", "bubble"})} :
        \E term \in {R({"none", "none2", "none3", "rev", "rev2", "inval", "selfd"})} :
        \E keep \in {R(1..3)} : \E ben \in {R({"T", "self", "S"})} :
